@@ -100,5 +100,23 @@ expect("Trace_C05/velocity: kept pair removed", r, "velocity-hit-dropped", tid=1
 if len(bad) > 1 and extra:
     expect("Trace_C05/velocity: rejected pair added", r, "velocity-miss-kept", tid=2)
 
+# Trace_C11: the twelve rule values recorded for a real label pair; one value corrupted so that a stricter rule no longer
+# implies the looser one / the ignored flag depends on the estimate
+from harness.props.C11 import RULES  # noqa
+fns = [getattr(me.chord, r_) for r_ in RULES]
+refl, ests = "G:maj7", ["G:maj7/3", "G:maj", "E:min7", "N"]
+cols = [fn([refl] * (len(ests) + 1), [refl] + ests) for fn in fns]
+vals = [[int(col[k]) for col in cols] for k in range(len(ests) + 1)]
+e0 = {"tid": 1, "self": vals[0], "vals": vals[1:]}
+r, _ = trace.validate_par("Trace_C11", [e0], workers=1)
+expect_clean("Trace_C11: recorded rule values of ('G:maj7', ...)", r)
+e1 = copy.deepcopy(e0)
+e1["vals"][1][RULES.index("thirds")] = 0              # triads still 1: triads => thirds broken
+e2 = copy.deepcopy(e0); e2["tid"] = 2
+e2["vals"][3][RULES.index("root")] = -1               # ignored for one estimate only
+r, _ = trace.validate_par("Trace_C11", [e1, e2], workers=1)
+expect("Trace_C11: 'thirds' value of one pair zeroed", r, "stricter-rule-does-not-imply-looser", tid=1)
+expect("Trace_C11: -1 for one estimate only", r, "ignored-depends-on-the-estimate", tid=2)
+
 print("BINDING SELF-TEST", "PASSED" if ok else "FAILED")
 sys.exit(0 if ok else 1)
